@@ -110,13 +110,19 @@ impl LoadBalancer {
   pub async fn wait_for_connection(&self) -> Result<(), ZmqError> {
     let notify = self.notify_waiters.clone();
     loop {
+      // Register with the Notify *before* looking at the peer list: notify_waiters() only
+      // wakes futures that already exist, so a peer added between the check and the wait
+      // would otherwise be missed and the sender would sleep although a peer is connected.
+      let notified = notify.notified();
+      tokio::pin!(notified);
+      notified.as_mut().enable();
       if self.deactivated.load(std::sync::atomic::Ordering::Acquire) {
         return Err(ZmqError::InvalidState("Socket closed".into()));
       }
       if !self.state.lock().peers.is_empty() {
         return Ok(());
       }
-      notify.notified().await;
+      notified.await;
     }
   }
 
